@@ -72,6 +72,10 @@ impl TcpStream {
 
         let (pair, rx, bidi) = World::current(|world| {
             let dst = addr.to_socket_addr(&world.dns)?;
+            // Streams are keyed by (local, remote) address pairs and the
+            // accepting side rebuilds its key from ip and port only, so an
+            // IPv6 scope id / flowinfo must not take part in the key.
+            let dst = SocketAddr::new(dst.ip(), dst.port());
 
             let (pair, rx, bidi) = {
                 let host = world.current_host_mut();
